@@ -14,20 +14,22 @@ import (
 // each loss; a permanent error ends the retry loop; Stop makes Run return.
 
 type c13Round struct {
-	Fault      string   `json:"fault"`     // drop-fin | drop-rst | graceful | stream-error
-	AfterMs    int      `json:"after_ms"`  // when, after the session was (re-)established
-	Attempts   []string `json:"attempts"`  // outcome of each following attempt: refuse | timeout | reset | neg-close-header | neg-close-auth | neg-close-bind | permanent-auth | ok
-	ResumeOK   bool     `json:"resume_ok"` // server accepts <resume/> on the good connection
-	LongOutage bool     `json:"long_outage,omitempty"`
-	OnTick     bool     `json:"fault_on_a_keepalive_tick,omitempty"`
+	Fault             string   `json:"fault"`     // drop-fin | drop-rst | graceful | stream-error
+	AfterMs           int      `json:"after_ms"`  // when, after the session was (re-)established
+	Attempts          []string `json:"attempts"`  // outcome of each following attempt: refuse | timeout | reset | neg-close-header | neg-close-auth | neg-close-bind | permanent-auth | ok
+	ResumeOK          bool     `json:"resume_ok"` // server accepts <resume/> on the good connection
+	LongOutage        bool     `json:"long_outage,omitempty"`
+	OnTick            bool     `json:"fault_on_a_keepalive_tick,omitempty"`
+	LostInPostConnect bool     `json:"new_session_lost_while_post_connect_runs,omitempty"`
 }
 
 type c13Scenario struct {
-	Client      ClientOpts `json:"client"`
-	Rounds      []c13Round `json:"rounds"`
-	LatencyNs   int64      `json:"latency_ns"`
-	Seg         int        `json:"segmentation"`
-	StopEarlyMs int        `json:"stop_early_ms,omitempty"` // >0: Stop is called this long after the last round's fault, whatever the client is doing then
+	Client        ClientOpts `json:"client"`
+	Rounds        []c13Round `json:"rounds"`
+	PostConnectMs int        `json:"post_connect_callback_takes_ms,omitempty"` // the application's post-connect callback is slow: the new session can be lost while it still runs
+	LatencyNs     int64      `json:"latency_ns"`
+	Seg           int        `json:"segmentation"`
+	StopEarlyMs   int        `json:"stop_early_ms,omitempty"` // >0: Stop is called this long after the last round's fault, whatever the client is doing then
 }
 
 func init() {
@@ -73,7 +75,11 @@ func runC13(e *Engine, g G, o RunOpt) RunInfo {
 		rd.ResumeOK = g.Bool("resumeok")
 		// the session ends at the very instant a keepalive is due
 		rd.OnTick = g.Pct("fault-on-tick", 15)
+		rd.LostInPostConnect = g.Pct("lost-in-post-connect", 30)
 		sc.Rounds = append(sc.Rounds, rd)
+	}
+	if g.Pct("slow-post-connect", 20) {
+		sc.PostConnectMs = []int{200, 2000, 9000}[g.N("post-connect-ms", 3)]
 	}
 	if g.Pct("stop-early", 20) {
 		// 1: at the instant the new session is up; 2: at the instant of the next connection attempt
@@ -214,6 +220,10 @@ func runC13(e *Engine, g G, o RunOpt) RunInfo {
 			postConnects++
 			lastUp = e.Now()
 			e.Logf("cb.postconnect", "#%d", postConnects)
+			if sc.PostConnectMs > 0 {
+				e.Sleep(time.Duration(sc.PostConnectMs)*time.Millisecond + 7*time.Microsecond)
+				e.Logf("cb.postconnect", "#%d returns", postConnects)
+			}
 		})
 		e.Go("sm.Run", func() {
 			// Run installs its own event handler; ours is chained by the library
@@ -300,6 +310,20 @@ func runC13(e *Engine, g G, o RunOpt) RunInfo {
 				break
 			}
 			reestablished++
+			if rd.LostInPostConnect && sc.PostConnectMs >= 2000 && !perm && ri == len(sc.Rounds)-1 {
+				// the new session is lost again while the application's post-connect callback still runs
+				e.Sleep(100 * time.Millisecond)
+				nEst2 := len(established())
+				c2 := established()[nEst2-1]
+				c2.Pipe.Cli.CutAt = c2.End.TotalWritten
+				c2.Pipe.Cli.CutErr = io.EOF
+				e.Probe("c13.lost_during_post_connect")
+				if e.WaitUntilFor("re-established-again", budget, func() bool { return len(established()) > nEst2 }) {
+					e.Violate("C13", "not-reestablished:during-post-connect", "round %d: the re-established session was lost while the post-connect callback (%d ms) was still running; no further session was established within %v", ri, sc.PostConnectMs, budget)
+					break
+				}
+				reestablished++
+			}
 			if rd.LongOutage {
 				e.Probe("c13.reestablished_after_long_outage")
 			}
